@@ -24,7 +24,7 @@ func init() {
 			"time stamps of two testdrv sessions may differ by one constant (the driver mixes the real and its virtual clock when a session starts); the monitor requires the difference to be the same for every retained message and below 60 s",
 			"domain is the well-formed C04 domain, as the quantifier says",
 		},
-		Require:         []string{"sessions_through_clock_zero", "sessions_with_fractional_intervals", "sessions_beyond_2^31_ms", "sessions_l1", "sessions_l2", "filtered:sense", "filtered:clock", "filtered:sysex", "retained_messages_compared"},
+		Require:         []string{"sessions_through_clock_zero", "sessions_with_fractional_intervals", "sessions_beyond_2^31_ms", "sessions_l1", "sessions_l2", "filtered:sense", "filtered:clock", "filtered:sysex", "retained_messages_compared", "cases_with_all_option_sets_on_one_port_pair"},
 		FakeTimeWorkers: 1,
 		Run:             runC14,
 	})
@@ -43,12 +43,18 @@ func c14Session(level int, cfg liveCfg, chunks [][]byte, deltas []int32) ([]obs,
 	if level == 2 {
 		return l.run(cfg, chunks, deltas)
 	}
+	return c14L1On(l, cfg, chunks, deltas)
+}
+
+// c14L1On runs one driver-level listening session on the given port pair and ends it (stop function): the pair can be
+// used for the next session.
+func c14L1On(l *l2, cfg liveCfg, chunks [][]byte, deltas []int32) ([]obs, error) {
 	if l.preListen > 0 && mon.FakeTime {
 		time.Sleep(l.preListen)
 	}
 	var got []obs
 	cur := 0
-	_, err := l.in.Listen(func(m []byte, ts int32) {
+	stop, err := l.in.Listen(func(m []byte, ts int32) {
 		got = append(got, obs{append([]byte(nil), m...), ts, cur})
 	}, drivers.ListenConfig{SysEx: cfg.sysex, TimeCode: cfg.clock, ActiveSense: cfg.sense, SysExBufferSize: cfg.buf})
 	if err != nil {
@@ -64,8 +70,14 @@ func c14Session(level int, cfg liveCfg, chunks [][]byte, deltas []int32) ([]obs,
 			return got, err
 		}
 	}
+	stop()
 	return got, nil
 }
+
+// c14SamePort: the option sets of a case are not tried on a fresh driver each but by eight listeners one after the other
+// on the same port pair (a program that changes its listen options while it runs); what a listener gets must not
+// depend on what its predecessors had asked for.
+var c14SamePort bool
 
 func c14Check(c *mon.Ctx, stream []byte, chunks [][]byte, deltas []int32, buf uint32) {
 	in := map[string]any{"stream": mon.Hex(stream), "chunks": len(chunks), "deltas_ms": deltas, "sysex_buffer": buf}
@@ -80,10 +92,21 @@ func c14Check(c *mon.Ctx, stream []byte, chunks [][]byte, deltas []int32, buf ui
 			return
 		}
 		c.Count(fmt.Sprintf("sessions_l%d", level), 1)
+		var shared *l2
+		if c14SamePort && level == 1 && c14PreListen == 0 {
+			shared = newL2()
+			c.Count("cases_with_all_option_sets_on_one_port_pair", 1)
+		}
 		for mask := 0; mask < 7; mask++ { // the 7 proper subsets of options
 			cfg := liveCfg{mask&1 != 0, mask&2 != 0, mask&4 != 0, buf}
 			var S []obs
-			if c.Guard("panic:session", in, func() { S, err = c14Session(level, cfg, chunks, deltas) }) || err != nil {
+			if c.Guard("panic:session", in, func() {
+				if shared != nil {
+					S, err = c14L1On(shared, cfg, chunks, deltas)
+				} else {
+					S, err = c14Session(level, cfg, chunks, deltas)
+				}
+			}) || err != nil {
 				return
 			}
 			c.Count(fmt.Sprintf("sessions_l%d", level), 1)
@@ -169,6 +192,10 @@ func runC14(c *mon.Ctx) {
 		w := gen.Serialize(nil, msgs, gen.SerOpts{ElideAll: true})
 		c14Check(c, w.Bytes, [][]byte{w.Bytes}, []int32{5}, 8)
 		c14Check(c, w.Bytes, splitBytes(w.Bytes), ones(len(w.Bytes)), 8)
+		// and with the eight listeners one after the other on one port pair
+		c14SamePort = true
+		c14Check(c, w.Bytes, [][]byte{w.Bytes}, []int32{5}, 8)
+		c14SamePort = false
 		c.DistinctBytes(w.Bytes)
 	})
 	c.MarkExhaustive("all ordered pairs of the 16 message kinds followed by FE, F8, a sysex and a note: 8 option sets x 2 levels x 2 chunkings")
